@@ -99,7 +99,8 @@ def run(rep, tier, seed):
     rx = tlc_family(rep, "MC_Totality", {"Family": "lex", "Tier": tier}, ["Total", "Export"], "c01-lex")
     re_ = tlc_family(rep, "MC_Totality", {"Family": "exprlex", "Tier": tier}, ["Total", "Export"], "c01-exprlex")
     rn_ = tlc_family(rep, "MC_Totality", {"Family": "exprnum", "Tier": tier}, ["Total", "Export"], "c01-exprnum")
-    for x in (rd, rx, re_, rn_):
+    ra_ = tlc_family(rep, "MC_Totality", {"Family": "attrlex", "Tier": tier}, ["Total", "Export"], "c01-attrlex")
+    for x in (rd, rx, re_, rn_, ra_):
         if not x.ok:
             raise vlib.ToolError(f"Totality.tla: {x.violated}")
         rep.add_tlc(x, "Totality.tla outcome sets")
@@ -144,6 +145,19 @@ def run(rep, tier, seed):
     for j, c in enumerate(el):
         data = totc.exprlex_doc(c["toks"], c["ctx"], random.Random(rnd.random()))
         cases.append({"k": f"exprlex-{j}", "b64": vlib.b64(data), "cfg": {"loop_limit": 20}, "what": f"exprlex:{c['ctx']}", "allowed": c["allowed"]})
+    al = ra_.replay
+    if not big and len(al) > 4000:
+        # every (attribute, value class) on at least one host, the rest sampled
+        rnd.shuffle(al)
+        seen, first, rest = set(), [], []
+        for c in al:
+            key = (c["attr"], c["cls"])
+            (rest if key in seen else first).append(c)
+            seen.add(key)
+        al = first + rest[:max(0, 4000 - len(first))]
+    for j, c in enumerate(al):
+        cases.append({"k": f"attrlex-{j}", "b64": vlib.b64(totc.attrlex_doc(c)), "cfg": {}, "what": f"attrlex:{c['attr']}", "allowed": c["allowed"],
+                      "timeout_ms": 10000})
     # seeded byte mutation
     corpus = [open(f, "rb").read() for f in sorted(glob.glob(os.path.join(vlib.REPO, "examples", "*.xml")))]
     corpus += [totc.depth_doc(k, 3) for k in ("reuse-chain", "retry-chain", "surround-chain", "path-length", "nested-calls", "text-long", "for-list")]
